@@ -2,7 +2,7 @@
    fails to compile if Props/C11.v is weakened, renamed or given other hypotheses. *)
 From Coq Require Import SpecFloat.
 Require Import Base Value Float PrintOptions ParseOptions Utf8 Reader Scan Num NumberOps Parser.
-Require Import RelFramework PositionProofs SpanProofs.
+Require Import RelFramework PositionProofs SpanProofs CrossProofs SourcesAgree.
 Require Import Lexpr.Props.C11.
 
 Check (C11_spans_in_bounds_partial :
@@ -62,4 +62,13 @@ Check (C11_nonvacuous :
              | _ => False
              end
   | PErr _ => False
+  end).
+
+Check (C11_same_across_slice_and_stream :
+  forall ro alpha fast std_parse (s : bytes),
+  match datum_from_trait ro alpha fast std_parse SrcSlice (bytes_events s), datum_from_trait ro alpha fast std_parse SrcIo (bytes_events s) with
+  | POk d1, POk d2 => d1 = d2
+  | PErr (XErr (ESyntax c1 _ _)), PErr (XErr (ESyntax c2 _ _)) => c1 = c2
+  | PErr (XErr (EIo a)), PErr (XErr (EIo b)) => a = b
+  | _, _ => False
   end).
